@@ -67,6 +67,7 @@ DefOpts ==
     dname  |-> "default", \* type-level Debug name: "default" | "off" | "on" | "custom"
     dnf    |-> "default", \* type-level named_field
     repr   |-> "none",
+    targets |-> <<>>,     \* requested Into targets
     newfn  |-> FALSE,
     dexpr  |-> FALSE
   ]
